@@ -255,6 +255,9 @@ type sessionRun struct {
 	conn   *rec.Conn
 	client *rec.MemConn
 	trace  []string
+	// serverClosedFirst: the server closed the connection while the peer was still connected (within the 8 s the driver waits)
+	serverClosedFirst bool
+	peerClosed        bool // the driver closed its end before waiting (clean close / truncation+close)
 }
 
 type behKey struct{ conn, payload int }
@@ -439,6 +442,15 @@ func encodeReq(k int, a *sReq) []byte {
 			BatchCount:             a.bc,
 		},
 	}
+	// header options the server does not act upon (it handles every item, in order, whatever they say): present in some
+	// requests so that an implementation starting to honour them in a way that breaks a property is noticed
+	h := k*7 + len(a.items)*3 + len(a.corr)
+	req.Header.BatchErrorContinuationOption = kmip.Enum(h % 4) // absent, Continue, Stop, Undo
+	req.Header.BatchOrderOption = h%3 == 1
+	if h%5 == 2 {
+		req.Header.MaxResponseSize = int32(16 + h%1000)
+	}
+	req.Header.AttestationCapableIndicator = h%7 == 3
 	if a.cred != 0 {
 		res := "fail"
 		if strings.HasPrefix(a.auth, "ok:") {
@@ -543,8 +555,10 @@ func driveClient(run *sessionRun, pipelined bool, T time.Duration, r *rand.Rand)
 		c.Close()
 	}
 	// let the server finish (it may have to time out by itself), then drop our end
+	run.peerClosed = closeAtEnd
 	select {
 	case <-run.conn.Closed():
+		run.serverClosedFirst = true
 	case <-time.After(8 * time.Second):
 	}
 	c.Close()
